@@ -62,6 +62,9 @@ REC_KEYS = {
     # ticks
     'when': REAL, 'when_monotonic': REAL, 'sequence_counter': INT, 'stereotypes': TList(STR),
     'nick_identifier': STR, 'ip_address': STR,
+    # state & modes publications (StateModes.serial / StateModes.update)
+    'fsm_statecode': INT, 'fsm_statename': STR, 'degraded_mode': BOOL, 'discovery_mode': BOOL, 'master_identifier': STR,
+    'starting_jobs': BOOL, 'stopping_jobs': BOOL, 'instance_states': TDict(STR, STR),
 }
 
 EXTERNAL_TYPES = {}
